@@ -17,11 +17,21 @@ Key = collections.namedtuple("Key", "fileobj fd events data")
 
 
 class Clock:
+    """virtual time.  Honest nodes' clocks differ: skew[node name] seconds are added for the node whose entry point is
+    currently running (and in the time handed to its manager steps)"""
+
     def __init__(self, t=1_700_000_000):
         self.t = t
+        self.skew = {}
+        self.net = None
+
+    def of(self, node):
+        return self.t + (self.skew.get(node.name, 0) if node is not None and self.skew else 0)
 
     def __call__(self):
-        return self.t
+        if not self.skew or self.net is None:
+            return self.t
+        return self.of(self.net.current_node)
 
 
 class FakeSocket:
@@ -204,6 +214,7 @@ class Net:
         lpmod.socket = _SockFactory(self)
         lpmod.time = self.clock
         rpmod.time = self.clock
+        self.clock.net = self
         self.nodes = {}
         self.by_addr = {}
         self.current_node = None
@@ -321,7 +332,7 @@ class Net:
         if t is not None:
             self.clock.t = t
         self.note("step", node.name, self.clock.t)
-        self._call(node, node.lp.step_managers, self.clock.t)
+        self._call(node, node.lp.step_managers, self.clock.of(node))
 
     # ---- enabled actions
     def enabled(self, timers=False):
